@@ -1,11 +1,14 @@
 """Static class zoo for C14 (pickling / deep copy / cloning)."""
 from traits.api import (HasTraits, Int, Str, ReadOnly, List, Dict, Set, Instance, Property,
-                        cached_property, observe)
+                        PrototypedFrom, cached_property, observe)
 
 from .zoo import NodeBase
 
 
 class Rec(NodeBase):
+    # (declared BEFORE the trait that holds its prototype: copying must still set
+    # the prototype first)
+    pv = PrototypedFrom("child", prefix="value")
     uid = Int()
     value = Int()
     ro = ReadOnly
@@ -21,6 +24,14 @@ class Rec(NodeBase):
     members = Set(Instance(NodeBase))      # hashable but mutable elements
     log = List(transient=True)
     total = Property(Int, observe="children.items.value")
+    # a settable property: its value lives under another name in the dictionary
+    sp = Property(Int)
+
+    def _get_sp(self):
+        return self.__dict__.get("_spv", 0)
+
+    def _set_sp(self, value):
+        self.__dict__["_spv"] = value
 
     @cached_property
     def _get_total(self):
